@@ -17,7 +17,7 @@ RULE = (
     "on nodes and on the end values; mask_edges x bypass_checks (bypass only with increasing data); via the kernel "
     "interp_1d_linear and via Grid.transform(method linear/log) with the target as bare array, 1-D DataArray or N-D "
     "DataArray + target_dim, 0-2 extra dims in random order, eager and dask-chunked over non-axis dims (synchronous / "
-    "threaded scheduler), default and custom suffix, named and unnamed input. Oracle: own bracketing search + exact "
+    "threaded scheduler), target_data given or omitted (= the grid's own coordinate; input with or without that coordinate), default and custom suffix, named and unnamed input. Oracle: own bracketing search + exact "
     "rational linear formula (rtol 1e-12; log 1e-9), NaN iff outside and mask_edges, nearest end value otherwise; new "
     "dimension named after target / target_data; result name = input name + suffix; the caller's (writable) data, "
     "target_data and target arrays are byte-identical after the call and an immediate second identical call returns the same. Class = (path, method, direction mix, "
@@ -67,7 +67,12 @@ def gen_case(rng, i, tier):
             ls.append(v)
         levels.append(ls)
     extra = {e: rng.randint(1, 2) for e in rng.sample(["time", "ens"], rng.choice([0, 0, 1, 2]))}
-    return {"n": n, "cols": cols, "dirs": dirs, "method": method, "levels": levels, "places": sorted(places),
+    # target_data may be omitted: the data is then interpolated against the grid's own coordinate of the axis (the same
+    # profile for every column), whether or not the input carries that coordinate itself
+    omit = tkind != "nd-target" and rng.random() < 0.15
+    if omit:
+        cols, dirs = [cols[0]] * ncol, [dirs[0]] * ncol
+    return {"omit_td": omit, "carry_coord": rng.random() < 0.5, "n": n, "cols": cols, "dirs": dirs, "method": method, "levels": levels, "places": sorted(places),
             "mask_edges": rng.random() < 0.6, "bypass": bypass, "tkind": tkind, "extra": extra,
             "path": rng.choice(["kernel", "grid", "grid"]), "dseed": rng.getrandbits(31), "order_seed": rng.getrandbits(8),
             "dask": rng.choice([None, None, "synchronous", "threads"]),
@@ -107,7 +112,7 @@ def run_case(ctx, desc):
         data = np.round(data).astype("int64")  # integer-typed data (counts); the levels stay fractional
     elif dt == "float32":
         data = data.astype("float32")  # quarter-integers are exact in float32; target_data and levels stay float64
-    feats = (desc["path"], dt, desc.get("decimal", False), method, "".join(sorted(set(desc["dirs"]))), mask, bypass, desc["tkind"], desc["places"], desc["dask"] if desc["path"] == "grid" else None)
+    feats = (desc["path"] + ("-td-omitted" if desc.get("omit_td") and desc["path"] == "grid" else ""), dt, desc.get("decimal", False), method, "".join(sorted(set(desc["dirs"]))), mask, bypass, desc["tkind"], desc["places"], desc["dask"] if desc["path"] == "grid" else None)
     nontrivial = any(p in ("inside", "outside") for p in desc["places"])
     ctx.judged(feats, nontrivial)
     if ctx.evaluations % 60 == 1:
@@ -167,16 +172,21 @@ def run_grid(ctx, desc, data, theta, feats):
     pos = ["center"] + desc["extra_pos"]
     layout = {"axes": [{"name": "Z", "pos": [[p, f"z_{p[:2]}"] for p in pos], "n": n}]}
     ds = gen.build_ds(layout, extra=dict(desc["extra"], col=ncol))
+    omit = desc.get("omit_td", False)
+    if omit:
+        ds = ds.assign_coords(z_ce=("z_ce", np.array(cols[0], float)))
     g = Grid(ds, coords=gen.layout_coords(layout), periodic=False, autoparse_metadata=False)
     dims = ex + ["col", "z_ce"]
     perm = [dims[k] for k in np.random.default_rng(desc["order_seed"]).permutation(len(dims))]
     da = xr.DataArray(data, dims=dims, name=desc["name"]).transpose(*perm)
     td = xr.DataArray(theta, dims=["col", "z_ce"], name=desc["tdname"])
+    if omit and desc.get("carry_coord"):
+        da = da.assign_coords(z_ce=ds["z_ce"])
     tkind = desc["tkind"]
     kw = {}
     if tkind == "ndarray":
         target = np.array(desc["levels"][0], float)
-        newdim = desc["tdname"] or "TRANSFORMED_DIMENSION"
+        newdim = "z_ce" if omit else (desc["tdname"] or "TRANSFORMED_DIMENSION")
     elif tkind == "dataarray":
         target = xr.DataArray(np.array(desc["levels"][0], float), dims=["lev"])
         newdim = "lev"
@@ -189,10 +199,11 @@ def run_grid(ctx, desc, data, theta, feats):
     if desc["dask"]:
         da = da.chunk({d: 1 for d in dims if d != "z_ce"})
         td = td.chunk({"col": 1})
+    tdkw = {} if omit else {"target_data": td}
     keep = (data.copy(), theta.copy(), np.array(np.asarray(target), float))
     try:
         with dask.config.set(scheduler=desc["dask"] or "synchronous"):
-            r = g.transform(da, "Z", target, target_data=td, method=method, mask_edges=mask, bypass_checks=bypass, **kw)
+            r = g.transform(da, "Z", target, method=method, mask_edges=mask, bypass_checks=bypass, **tdkw, **kw)
             if desc["dask"] and not dask.is_dask_collection(r):
                 ctx.violation("lazy-stays-lazy", "transform of dask-backed data returned an in-memory result")
                 return
@@ -208,7 +219,7 @@ def run_grid(ctx, desc, data, theta, feats):
             return
     try:
         with dask.config.set(scheduler=desc["dask"] or "synchronous"):
-            r2 = g.transform(da, "Z", target, target_data=td, method=method, mask_edges=mask, bypass_checks=bypass, **kw).compute()
+            r2 = g.transform(da, "Z", target, method=method, mask_edges=mask, bypass_checks=bypass, **tdkw, **kw).compute()
         if r2.dims != r.dims or not np.array_equal(r2.values, r.values, equal_nan=True):
             ctx.violation("inputs-untouched", f"transform {method}: the same call on the same objects gives a different result the second time")
             return
@@ -218,7 +229,7 @@ def run_grid(ctx, desc, data, theta, feats):
     if newdim not in r.dims:
         ctx.violation("new-dimension-name", f"result dims {r.dims}; the new dimension should be named {newdim!r} (target kind {tkind}, target_data name {desc['tdname']!r})")
         return
-    if "z_ce" in r.dims or set(r.dims) != set(ex + ["col", newdim]):
+    if ("z_ce" in r.dims and newdim != "z_ce") or set(r.dims) != set(ex + ["col", newdim]):
         ctx.violation("result-dims", f"result dims {r.dims}, expected {ex + ['col', newdim]} in some order")
         return
     want_name = None if desc["name"] is None else desc["name"] + ("_transformed" if desc["suffix"] is None else desc["suffix"])
